@@ -15,6 +15,9 @@ type vChunkReader struct {
 	data  string
 	pos   int
 	chunk int
+	// eofWithData: the read that delivers the last bytes also reports io.EOF (the io.Reader
+	// contract allows both (n, nil) then (0, EOF) and (n, EOF))
+	eofWithData bool
 }
 
 func (r *vChunkReader) Read(p []byte) (int, error) {
@@ -30,6 +33,9 @@ func (r *vChunkReader) Read(p []byte) (int, error) {
 	}
 	copy(p, r.data[r.pos:r.pos+n])
 	r.pos += n
+	if r.eofWithData && r.pos >= len(r.data) {
+		return n, io.EOF
+	}
 	return n, nil
 }
 
@@ -70,7 +76,7 @@ func VH_C16_chunks(src int) {
 	want, _ := vLexAll(strings.NewReader(text))
 	rt.Assert(len(want) > 0, "the source must lex with a full read")
 	size := vChunkSizes[rt.Choice(len(vChunkSizes))]
-	got, _ := vLexAll(&vChunkReader{data: text, chunk: size})
+	got, _ := vLexAll(&vChunkReader{data: text, chunk: size, eofWithData: rt.Bool()})
 	rt.Assert(len(got) == len(want), "the token sequence must not depend on how the reader splits the bytes")
 	for i := range want {
 		if i < len(got) {
